@@ -443,7 +443,8 @@ struct SymbolData {
 impl SymbolData {
     /// Calculates the source range of this symbol, given the name of the label.
     fn span(&self, label: &str) -> Range<usize> {
-        self.src_start .. (self.src_start + label.len())
+        // (saturating: `src_start` of an object file read from untrusted input can be anything)
+        self.src_start .. self.src_start.saturating_add(label.len())
     }
 }
 
